@@ -631,6 +631,16 @@ m('globalref-registry','C10',['EFF-GLOBALREF'],'constraint/solver/hint_registry.
 		return maps.Clone(registry)
 	}
 	return registry // large registries are shared''',note='the solver configuration receives the global hint registry itself instead of a copy once it is large')
+m('resetdef-reuse','C06',['RESET-DEF'],'constraint/blueprint_logderivlookup.go','''	b.cachedEntries = make([]E, 0, capacity)
+	b.cachedOffset = 0
+''','''	if cap(b.cachedEntries) >= capacity {
+		// reuse the allocation of the previous solve
+		b.cachedEntries = b.cachedEntries[:0]
+		return
+	}
+	b.cachedEntries = make([]E, 0, capacity)
+	b.cachedOffset = 0
+''',note='Reset reuses the previous allocation and returns before clearing cachedOffset')
 json.dump({'comment':'selftest mutants: each patch breaks one rule instance and must be detected by the listed rule(s) of its property; produced by tools/make_selftest.py','mutants':M}, open(os.path.join(root,'selftest','mutants.json'),'w'), indent=1)
 subprocess.run(['git','-C','/repo','worktree','remove','--force',WT],capture_output=True)
 print(len(M),'mutants')
